@@ -44,6 +44,7 @@ def sweep(world, rep, ts):
         nb_forms.append(nodes[:len(nodes) // 2] + [unk])
         nb_forms.append(list(reversed(nodes[len(nodes) // 2:])))
     nb_forms.append([unk])
+    nb_forms.append([])                                   # an empty container restricts to nothing
     nb_forms = [(f, False) for f in nb_forms] + [(f, True) for f in nb_forms[1:] if f and len(f) > 1][:1]
     n_eval = 0
     for t in ts:
@@ -66,12 +67,17 @@ def sweep(world, rep, ts):
                     return iter(list(self.xs)) if as_iter else self.xs
             nbf = _NB(nb_list)
             nb = nb_list
+            bare = nb is not None and len(nb) == 1 and nb[0] in m.nodes      # also handed over as a bare node
             inb = (lambda x: True) if nb is None else (lambda x, s=set(nb): x in s)
             for fn, name in ((g.interactions, 'interactions'), (lambda nbunch=None, t=None: dn.interactions(g, nbunch, t=t),
                                                                 'dn.interactions'),
                              (lambda nbunch=None, t=None: list(g.interactions_iter(nbunch, t)), 'interactions_iter')):
                 r = get(fn, name, t, nbf(), t=t) if name == 'interactions' else get(fn, name, t, nbf(), t)
                 got = [(x[0], x[1]) for x in r]
+                if bare:
+                    r2 = get(fn, name, t, nb[0], t=t) if name == 'interactions' else get(fn, name, t, nb[0], t)
+                    if ms((x[0], x[1]) for x in r2) != ms(got):
+                        raise V('interactions', name + '(bare node)', t, [(x[0], x[1]) for x in r2], got, {'nbunch': repr(nb[0])})
                 if not D:
                     exp = ms(und(a, b) for a, b in E if inb(a) or inb(b))
                     if ms(und(a, b) for a, b in got) != exp:
